@@ -211,7 +211,7 @@ def enc_body(enc, fields, vals, o, drop=None, fieldmut=None):
         if drop is not None and pos == drop: continue
         tag = f.tag
         if fieldmut is not None and fieldmut[0] == pos:
-            tag = None if fieldmut[1] == "missing" else f.tag + 1
+            tag = None if fieldmut[1] == "missing" else f.tag ^ 1
         pieces.append((f.idx, enc_tag(tag, o) + enc_field_value(f, v, o), absent(f, v)))
     present = [p for p in pieces if not p[2]]
     if enc == "a":
@@ -250,18 +250,18 @@ def py_encode(ty, v, o=None, mut=None):
             f = ty.fields[0]
             return enc_field_value(f, v[1][0], o)
         tag = ty.tag
-        if mut and mut[0] == "tag": tag = None if mut[1] == "missing" else ty.tag + 1
+        if mut and mut[0] == "tag": tag = None if mut[1] == "missing" else ty.tag ^ 1
         drop = mut[1] if mut and mut[0] == "drop" else None
         fm = (mut[1], mut[2]) if mut and mut[0] == "ftag" else None
         return enc_tag(tag, o) + enc_body(eff_enc(ty.enc), ty.fields, v[1], o, drop, fm)
     if k == "en":
         var = ty.variants[v[1]]
         tag = ty.tag
-        if mut and mut[0] == "tag": tag = None if mut[1] == "missing" else ty.tag + 1
+        if mut and mut[0] == "tag": tag = None if mut[1] == "missing" else ty.tag ^ 1
         idx = mut[1] if mut and mut[0] == "variant" else var.idx
         if ty.index_only: return enc_tag(tag, o) + head(0, idx, o)
         vtag = var.tag
-        if mut and mut[0] == "vtag": vtag = None if mut[1] == "missing" else var.tag + 1
+        if mut and mut[0] == "vtag": vtag = None if mut[1] == "missing" else var.tag ^ 1
         enc = eff_enc(var.enc, ty.enc)
         drop = mut[1] if mut and mut[0] == "drop" else None
         fm = (mut[1], mut[2]) if mut and mut[0] == "ftag" else None
@@ -269,7 +269,7 @@ def py_encode(ty, v, o=None, mut=None):
             body = (b"\x80" if enc == "a" else b"\xa0")
         else:
             body = enc_body(enc, var.fields, v[2], o, drop, fm)
-        return enc_tag(tag, o) + b"\x82" + head(0, idx, o) + enc_tag(vtag, o) + body
+        return enc_tag(tag, o) + head(4, 2, o) + head(0, idx, o) + enc_tag(vtag, o) + body
     raise ValueError(k)
 
 
@@ -810,6 +810,38 @@ def base_for_chain(sg):
     return t_st(fs, enc=enc, tag=sg.tag(0.15), shape=r.choice(["n", "p"]))
 
 
+def core_chains():
+    """fixed chains: the documented example edits, and the two recorded defects (F5, K5) in their minimal form."""
+    F = Field
+    out = []
+    # F5: index_only enum in an optional field gains a variant; a sibling follows
+    io2 = lambda n: t_en([Variant(i) for i in range(n)], index_only=True)
+    a = t_st([F(0, t_opt(io2(2))), F(1, t_int("u8"))])
+    b = t_st([F(0, t_opt(io2(3))), F(1, t_int("u8"))])
+    out.append(Chain([a, b], ["base", "add variant 2 to an enum used as an optional field"]))
+    a = t_st([F(0, t_opt(io2(1))), F(1, t_text("string"))], enc="m")
+    b = t_st([F(0, t_opt(io2(2))), F(1, t_text("string"))], enc="m")
+    out.append(Chain([a, b], ["base", "add variant 1 to an enum used as an optional field"]))
+    # K5: a tagged optional field added at a gap index, array encoding
+    a = t_st([F(0, t_int("u8")), F(2, t_int("u8"))])
+    b = t_st([F(0, t_int("u8")), F(1, t_opt(t_int("u8")), tag=5), F(2, t_int("u8"))])
+    c = t_st([F(0, t_int("u8")), F(1, t_opt(t_int("u8")), tag=5), F(2, t_int("u8")), F(3, t_int("u32"), codec="x", tag=6)])
+    out.append(Chain([a, b, c], ["base", "add optional field at gap index 1", "add optional field at new index 3"]))
+    # the example of the documentation: regular enum under Option, unit variant -> tuple variant, new struct variant
+    e1 = t_en([Variant(0)])
+    e2 = t_en([Variant(0, "p", [F(0, t_opt(t_int("i64")))])])
+    e3 = t_en([Variant(0, "p", [F(0, t_opt(t_int("i64")))]), Variant(1, "n", [F(0, t_int("u32")), F(1, t_opt(t_blob("bytevec")))])])
+    v1 = t_st([F(0, t_int("u32")), F(1, t_opt(t_text("string")))])
+    v2 = t_st([F(0, t_int("u32")), F(1, t_opt(t_text("string"))), F(2, t_opt(t_bool()))])
+    v3 = t_st([F(0, t_int("u32")), F(2, t_opt(t_bool()))])
+    v4 = t_st([F(0, t_int("u32")), F(2, t_opt(t_bool())), F(3, t_opt(e1))])
+    v5 = t_st([F(0, t_int("u32")), F(2, t_opt(t_bool())), F(3, t_opt(e2))])
+    v6 = t_st([F(0, t_int("u32")), F(2, t_opt(t_bool())), F(3, t_opt(e3))])
+    out.append(Chain([v1, v2, v3, v4, v5, v6], ["base", "add optional field at new index 2", "drop optional field 1", "add optional field at new index 3",
+                                                "unit variant 0 becomes a p variant with optional fields", "add variant 1 to an enum used as an optional field"]))
+    return out
+
+
 def make_chain(sg, steps):
     root = base_for_chain(sg)
     retired = {}
@@ -1062,8 +1094,8 @@ class Corpus:
     pass
 
 
-SIZES = {"quick": dict(random_schemas=46, twins=40, chains=10, steps=3, cap=10, chain_vals=6),
-         "thorough": dict(random_schemas=150, twins=120, chains=40, steps=4, cap=24, chain_vals=12)}
+SIZES = {"quick": dict(random_schemas=120, twins=80, chains=30, steps=3, cap=12, chain_vals=8),
+         "thorough": dict(random_schemas=400, twins=250, chains=100, steps=4, cap=24, chain_vals=12)}
 
 _cache = {}
 
@@ -1091,8 +1123,7 @@ def build(seed, tier, batch=0):
         fix_b(t2)
         n2 = em.top(t2)
         c.twins.append((n2, t2, [(f(v), ty, v) for v in vals[:max(4, sz["cap"] // 2)]]))
-    for _ in range(sz["chains"]):
-        ch = make_chain(sg, sz["steps"])
+    for ch in core_chains() + [make_chain(sg, sz["steps"]) for _ in range(sz["chains"])]:
         names, vals = [], []
         for v in ch.versions:
             fix_b(v)
